@@ -99,16 +99,21 @@ func RunSync(seed int64, idx int) *Result {
 			g.waitAt(ctx, h)
 		}
 	}
+	ownErr := rng.Intn(2) == 0
 	nd.Mem.OnRequest = func(ctx context.Context, h uint64) error {
 		if parkKinds&2 != 0 {
 			g.waitAt(ctx, h)
 		}
-		return ctx.Err() // a contract that reports the cancellation of its request
+		if ctx.Err() != nil && ownErr {
+			return fmt.Errorf("committee contract: call aborted") // a contract that reports the cancellation with an error of its own
+		}
+		return ctx.Err() // ... or by handing the context's error back
 	}
 	if parkKinds&4 != 0 {
 		nd.BlockCommit = func(ctx context.Context, h uint64) { g.waitAt(ctx, h) }
 	}
 	desc := fmt.Sprintf("single node n00 (leader of view 0), parkKinds=%03b lag=%dus logDelays=%d", parkKinds, g.lagUs, len(delays))
+	defer func() { net.count("C15 sync cases with parked SPI calls") }()
 	nd.Start()
 	call := func(b *spi.Blk) bool {
 		done := make(chan struct{})
@@ -218,6 +223,7 @@ func RunSync(seed int64, idx int) *Result {
 			}
 			net.count("C14 releases judged")
 			if !released {
+				net.violate("C15", "context-not-cancelled-when-told-to-leave", "UpdateState heights %v returned nil (node was deciding height %d) but an SPI call waiting on the context of a height <= %d is still blocked 2 s after the main loop handled the sync", hs, h0, want-1)
 				net.violate("C14", "sync-did-not-release-the-blocked-spi-call", "UpdateState heights %v returned nil (node was deciding height %d) but an SPI call waiting on the context of a height <= %d is still blocked 2 s after the main loop handled the sync", hs, h0, want-1)
 			}
 		}
@@ -229,6 +235,9 @@ func RunSync(seed int64, idx int) *Result {
 		if eligible {
 			if h1 < want {
 				net.violate("C14", "newest-sync-did-not-take-effect", "UpdateState heights %v returned nil while the node was deciding height %d; after 64 witnessed worker iterations it is at height %d (view %d), expected at least %d", hs, h0, h1, v1, want)
+				if parkKinds&3 != 0 {
+					net.violate("C15", "blocking-spi-call-stalls-the-node", "SPI calls wait on their context (parkKinds=%03b, committee contract reports cancellation with its own error=%v); UpdateState heights %v told the node to leave height %d, yet after 64 witnessed worker iterations it is still at height %d", parkKinds, ownErr, hs, h0, h1)
+				}
 			}
 		} else {
 			// stale syncs change nothing
